@@ -21,6 +21,11 @@ BASE = ("qkeras from /repo working tree on tf_keras 2.21 (TF_USE_LEGACY_KERAS=1)
 TECH = "deterministic simulation with fault injection: "
 
 CHECKS = {
+    "C07": ("Q+T", "exploration",
+            "Quantizer half: the knob is mutable state (python float or tf.Variable); seeded orders of update (float/const/Variable argument), variable build, tf.function trace, set_trainable and restart around calls; after every call y = surrogate + f*(fully quantized sibling - surrogate), f=1 bit-identical to the sibling, constructor-constant sibling agrees, a trace taken after the variable build follows later updates. Scheduler half: a virtual step clock emits Keras callback event sequences (interrupted fits, repeated fits with one callback, resumes with a fresh callback, duplicated train_begin, clock jumps) against the real QNoiseScheduler and real models; at every update step every knob-bearing quantizer found by an independent attribute walk carries 0 before start, 1 from finish, the documented curve between, never decreasing; real model.fit runs validate the simulated event source. Sampling, not proof.",
+            BASE + "simulated fits do not train weights (the property does not depend on them); traces taken before the variable build and traced auto-scale quantizers are not judged (TensorFlow constant capture / graph float reassociation).",
+            TECH + "virtual step clock driving the real callback with injected interrupts/resumes/clock jumps + seeded update/build/trace orderings on the knob; shadow reference model of the schedule",
+            "4 C07"),
     "C04": ("Q", "exploration",
             "quantizer.scale is last-call state read later by other parties; seeded histories interleave callers sharing binary/ternary/stochastic_* objects with scale reads, phase flips, set_trainable, restarts and failed draws. After every call: y = exposed scale x sign/ternary code, zero<=>below threshold (a separating threshold per group for auto), scale >= 0, constant per configured group, equal to the per-group least-squares optimum, power of two within bounds and nearest exponent for auto_po2; a later read returns the last call's scale; repeating a call is bit-identical whatever happened in between. Sampling, not proof.",
             BASE + "stochastic classes are judged in inference phase only (their training phase belongs to C08); channels_last; tolerance of one ulp of x for the straight-through expression.",
